@@ -524,12 +524,35 @@ class Visitor(
         left = self.context.symbols.pop()
         self.context.symbols.push(self.generate_set(left, right, source.kind))
 
+    @classmethod
+    def _outer_joined(cls, source: 'dsl.Source') -> bool:
+        """Check whether the source involves (directly - not via a nested statement) any outer join.
+
+        Args:
+            source: Source to be inspected.
+
+        Returns:
+            True if any of the joins within the source is outer.
+        """
+        if isinstance(source, dsl.Join):
+            return (
+                source.kind not in {dsl.Join.Kind.INNER, dsl.Join.Kind.CROSS}
+                or cls._outer_joined(source.left)
+                or cls._outer_joined(source.right)
+            )
+        if isinstance(source, dsl.Reference):
+            return cls._outer_joined(source.instance)
+        return False
+
     @bypass(resolve_source)
     def visit_query(self, source: 'dsl.Query') -> None:
         with self:
             self.context.tables.select(*source.features)
             if source.prefilter is not None:
-                self.context.tables.filter(source.prefilter)
+                if self._outer_joined(source.source):  # filtering below an outer join alters its null-padding
+                    self.context.tables.select(source.prefilter)
+                else:
+                    self.context.tables.filter(source.prefilter)
             if source.postfilter is not None:
                 self.context.tables.select(source.postfilter)
             self.context.tables.select(*source.grouping)
